@@ -4,12 +4,12 @@ import (
 	"encoding/json"
 	"os"
 	"regexp"
-	"strings"
 )
 
 // Known is one entry of /verif/known_findings.json ("known" list). A finding is explained by it when
-// the property matches, the finding class matches ClassRe and the input (as a Go-quoted string,
-// or whatever the harness passes) matches InputRe. The file is read-only at run time.
+// the property matches, the finding class matches ClassRe and the raw input bytes match InputRe
+// (entries whose deviation needs a semantic test are implemented by id in the harness instead and
+// carry no InputRe). The file is read-only at run time.
 type Known struct {
 	ID       string `json:"id"`
 	Property string `json:"property"`
@@ -56,7 +56,7 @@ func MatchKnown(ks []Known, class string, input []byte) string {
 		if !k.classRe.MatchString(class) {
 			continue
 		}
-		if k.inputRe != nil && !k.inputRe.MatchString(hexOrText(input)) {
+		if k.inputRe != nil && !k.inputRe.Match(input) {
 			continue
 		}
 		return k.ID
@@ -64,5 +64,12 @@ func MatchKnown(ks []Known, class string, input []byte) string {
 	return ""
 }
 
-// hexOrText: regexps are written against the hex form of the input ("-" for empty).
-func hexOrText(in []byte) string { return strings.ToLower(HexF(in)) }
+// HasKnown reports whether the id is listed.
+func HasKnown(ks []Known, id string) bool {
+	for _, k := range ks {
+		if k.ID == id {
+			return true
+		}
+	}
+	return false
+}
